@@ -393,7 +393,7 @@ func genScenario(e *env, root *vh.Rng, idx int) *scenario {
 			rp.D = 4 - rp.K
 		}
 		p.Rounds = []roundP{rp}
-		p.MarginMs = rng.Range(2200, 3200)
+		p.MarginMs = rng.Range(2500, 3500)
 	case "tip-not-better":
 		p.Rounds = []roundP{mk(0, height, setClass, tClass, -2, 3)}
 		p.MarginMs = rng.Range(300, 2500)
